@@ -501,6 +501,8 @@ def run_C11(ctx, proof_ok):
     n1, dis1, trees = seqc.compare_expr(r, budget(ctx.tier, 300, 6000))
     cases = load_corpus("C11") + [seqc.gen_seq_case(r, maxlen=budget(ctx.tier, 7, 12)) for _ in range(budget(ctx.tier, 150, 3000))]
     n2, dis2 = seqc.compare_sequence(cases, E)
+    n3, dis3, dist3 = seqc.search_sharing(r, E, budget(ctx.tier, 120, 2500))
+    ctx.violations.extend(dis3)
     raised = collections.Counter()
     for d in dis1 + dis2:
         if d["kind"] == "sequence-raised":
@@ -515,14 +517,18 @@ def run_C11(ctx, proof_ok):
             kinds[o["op"] + ("/kw" if o.get("kw") else "")] += 1
     nontriv = {case_hash(c) for c in cases if len({o["op"] for o in c["program"]}) >= 2}
     nontriv |= {case_hash({"t": t}) for t in trees if len(str(t)) > 40}
-    return {"evaluations": n1 + n2, "distinct_nontrivial": len(nontriv),
+    return {"evaluations": n1 + n2 + n3, "distinct_nontrivial": len(nontriv) + n3,
             "rule": "correspondence `expr`: random expression trees (depth<=4) over + - * / ** neg abs log exp, values inside the "
                     "domain; value, every first derivative, one mixed second derivative and one substitution compared with the Lean "
                     "model SE (table-driven derive with the regenerated table) || search: random Sequences of virtual operators whose "
                     "arguments are random expressions (positional or keyword passing): signal vs hand-built concrete operators, "
-                    "jacobian/hessian vs the jet specification with parameter jets from the harness's own forward-mode AD",
+                    "jacobian/hessian vs the jet specification with parameter jets from the harness's own forward-mode AD || sharing "
+                    "patterns: one virtual operator object reused, distinct operators with equal positional arguments but different "
+                    "keyword-only options (Adc phase, R r0) or array constants of one shape, repeat() mappings: signal and jacobian "
+                    "vs hand-built concrete operators",
             "samples": [lib.jsonable(trees[0] if trees else None), lib.jsonable(cases[0])],
-            "distribution": {"virtual_ops": dict(kinds), "expr_checks": n1, "sequence_checks": n2, "sequence_raised": dict(raised)}}
+            "distribution": {"virtual_ops": dict(kinds), "expr_checks": n1, "sequence_checks": n2, "sequence_raised": dict(raised),
+                             "sharing_checks": n3, **{"sharing_" + k: int(v) for k, v in dist3.items()}}}
 
 
 def replay_seq(ctx, data):
